@@ -314,3 +314,29 @@ Fixpoint wrun (refusal_done : bool) (s : wgstate) (ls : list wlabel) : option wg
   | [] => Some s
   | l :: tl => match wstep refusal_done s l with Some s' => wrun refusal_done s' tl | None => None end
   end.
+
+(** * runScene's errCh: the deferred collectErrors always has something to read
+
+    [collectErrors] (deferred, run after [wg.Wait]) first receives ONE value
+    from errCh, blocking.  Every line contributes its value before anything of
+    that line can fail: a mood-only line (no actor) sends nil BEFORE it hands
+    the mood change to the audition and the collector — which fails only when
+    the prompter is cancelled while blocked there, and then [runScene] returns
+    early —; an actor line sends through its task (before wg.Wait returns) or
+    through the refusal branch; an empty scene sends nil after the loop.
+    [report_first] = does a mood-only line send before the mood change (it
+    does in the code). *)
+Inductive sline := SLMood (fails : bool) | SLActor (o : launch).
+
+Fixpoint errch_values (report_first : bool) (ls : list sline) : nat :=
+  match ls with
+  | [] => O
+  | SLMood fails :: tl =>
+      if fails then (if report_first then 1%nat else O)          (* early return *)
+      else S (errch_values report_first tl)
+  | SLActor _ :: tl => S (errch_values report_first tl)
+  end.
+
+(** number of values in errCh when collectErrors starts to read *)
+Definition errch_at_collect (report_first : bool) (ls : list sline) : nat :=
+  match ls with [] => 1%nat | _ => errch_values report_first ls end.
